@@ -448,9 +448,16 @@ func init() {
 		// crypto/rand stub: one arbitrary (symbolic) 32-bit seed per run; the same
 		// value is returned on every call so that replays can pin it.
 		stats.stubs["hash.RandSeed:symbolic"]++
-		v := Var("hashseed", 32)
+		s.counters["randseed"]++
+		name := "hashseed"
+		// by default every call returns the same arbitrary value (keeps recovery sessions from
+		// re-forking on the hash layout); harnesses about the seed itself ask for fresh values
+		if k := s.counters["randseed"]; k > 1 && s.flags["freshSeeds"] != 0 {
+			name = fmt.Sprintf("hashseed#%d", k)
+		}
+		v := Var(name, 32)
 		if pinned != nil {
-			v = Const(32, pinned.Scalars["hashseed"])
+			v = Const(32, pinned.Scalars[name])
 		}
 		return TupleV{v, IfaceV{}}
 	})
